@@ -2594,6 +2594,13 @@ def get_event_from_element(
                 # Only the parameters given in the statement are part of the match,
                 # not the default values of all the other flow parameters
                 temp_flow_state.arguments = {}
+                # A positional parameter stands for the flow parameter at that position,
+                # however the matched flow instance was started
+                for idx, param in enumerate(flow_config.parameters):
+                    if f"${idx}" in flow_event_arguments:
+                        flow_event_arguments[param.name] = flow_event_arguments.pop(
+                            f"${idx}"
+                        )
             flow_event: InternalEvent = temp_flow_state.get_event(
                 flow_event_name, flow_event_arguments
             )
